@@ -18,7 +18,7 @@ CHECKS={
    text="Inputs <= 64 KiB / nesting <= 12 run through tokenize, parse, analyze, render, re-parse in worker processes: a panic, a death by signal or > 20 CPU s (3/3 reproduction) is a violation. Thorough adds a coverage-guided libFuzzer campaign over the same in-target oracle.",
    note="Hangs that need more CPU than the budget or inputs beyond the stated bounds are out of reach. Budget is CPU time measured by the worker, never wall clock.", ref="DESIGN.md §3 C04"),
  "C05": dict(cat="exploration", technique=T+": harness-printed texts with known lexeme table; oracle = recomputed line/column, source[span]==text, marker positions of planted faults"+F+"",
-   text="Tokens must tile the source with recomputed line/column; every Id must carry file id and the span of its own spelling and coincide with the harness' lexeme table; primary labels of planted faults must cover the marker the planter wrote.",
+   text="Tokens must tile the source with recomputed line/column; every Id must carry file id and the span of its own spelling and coincide with the harness' lexeme table; primary labels of planted faults must cover the marker the planter wrote; the file:L:C shown by check / echo / tokenize and the LSP range.start for a sample of planted faults, syntax errors and lexical errors must be the recomputed position of the label start.",
    note="Column unit is free (bytes, chars or UTF-16) but must be one per file. Form feed excluded. P9999 / file-level labels exempt.", ref="DESIGN.md §3 C05"),
  "C06": dict(cat="exploration", technique=T+"+ exhaustive permutations / partitions: metamorphic oracle (same verdict, codes, location modulo placement)"+F+"",
    text="Units of <= 5 declarations: all permutations, all partitions into <= 3 files x all file orders must give the canonical verdict (single-fault units: same codes and same (chunk, offset) locations); sets of 6..30 declarations with one file each in random orders; chunks that declare nothing; exhaustive 114-cell scope-leak grid; Project::semantic on fresh projects and `ironplcc check` (files, file + directory) in fresh processes sampled.",
@@ -34,7 +34,7 @@ CHECKS={
    note="f64 reference = std's correctly rounded decimal conversion. Taste bands (year 0 / >= 10000, typed literal beyond its type's range, unit counts beyond 64 bits): reject or exact both pass.", ref="DESIGN.md §3 C09"),
  "C10": dict(cat="exploration", technique=T+": round trip parse -> render -> parse, fixed point"+F+"",
    text="For generated programs the parser accepts: write_to_string output must parse to an equal library (and identical identifier spellings) and re-rendering must be a fixed point.",
-   note="The renderer of the pinned tree is broken for 25 constructs (known_findings.json, scope own, pinned by the repository's own rendered-output tests); the strict oracle runs on the sub-language whose gates are on.", ref="DESIGN.md §3 C10"),
+   note="Of the 26 renderer defects found on the pinned tree, 19 entries are repaired in /repo (fix: commits, regression witnesses); 7 stay known (scope own: six are pinned by expected files of the repository's rendered-output tests, one needs a dsl field) and the strict oracle runs on the sub-language whose gates are on.", ref="DESIGN.md §3 C10"),
  "C11": dict(cat="exploration", technique="exhaustive enumeration of notification histories (<= 3/4) + "+T+"for random histories <= 40; oracle = fresh-server reference and CLI agreement",
    text="Over `ironplcc lsp --stdio`: one publishDiagnostics per didOpen/didChange with its URI and version; the last publication equals a fresh server's for the same current contents and carries the (code, line, column) `ironplcc check <dir>` prints.",
    note="Diagnostics compared as multisets; P0030 excluded. Random histories include close and reopen, strided version numbers, moved / trimmed / degenerate texts, cross-document name clashes, documents with hundreds of diagnostics, names that need percent-encoding.", ref="DESIGN.md §3 C11"),
